@@ -18,7 +18,8 @@ SPEC = {
                    "PyMatterSim.neighbors.freud_neighbors:VolumeMatrix", "PyMatterSim.neighbors.read_neighbors:read_neighbors"],
     "floors": {"structure": 300, "symmetry": 2000, "weights_positive": 2000, "volume_sum": 100, "oracle_neighbors": 2000,
                "oracle_weights": 2000, "oracle_volumes": 2000, "reader": 200, "eof": 60,
-               "vm_frame_selection": 20, "vm_row_sums": 20, "vm_oracle": 20, "vm_saved": 8},
+               "vm_frame_selection": 20, "vm_row_sums": 20, "vm_oracle": 20, "vm_saved": 8,
+               "box_drifting_slowly_between_frames": 8, "systems_over_65536_particles": 1, "volume_matrix_of_a_large_configuration_with_a_cavity": 1},
     "insitu": ("read_neighbors",),
     "rule": ("{2D,3D} x N 8..80 (gas / hard-core / perturbed lattice, general position) x orthogonal boxes with unequal edges x origins "
              "{0, negative, large, asymmetric, centred, zero-sum-but-not-centred} x 1..3 frames (box and N constant or box varying per "
@@ -49,6 +50,9 @@ def make_traj(rng, d, N, frames, thorough=False, poskind=None, independent_frame
     SingleSnapshot, Snapshots = gc.records()
     okind = str(rng.choice(["zero", "neg", "large", "asym", "centred", "zerosum", "hoomd"]))
     vary_box = frames > 1 and rng.random() < 0.4
+    # a box that changes a little from frame to frame (NPT drift, slow compression: a few 1e-6 relative per frame): every frame is
+    # tessellated in ITS box -- "almost the box of the previous frame" is another box
+    drift = float(rng.uniform(3e-6, 9e-6)) * float(rng.choice([-1, 1])) if (frames > 1 and not vary_box and rng.random() < 0.5) else 0.0
     poskind = poskind or str(rng.choice(["gas", "gas", "hardcore", "lattice"]))
     L0 = rng.uniform(3.0, 12.0, size=d)
     if rng.random() < 0.15:
@@ -57,7 +61,7 @@ def make_traj(rng, d, N, frames, thorough=False, poskind=None, independent_frame
     N = len(f0)
     snaps = []
     for t in range(frames):
-        L = L0 * (rng.uniform(0.8, 1.25) if (vary_box and t) else 1.0)
+        L = L0 * (rng.uniform(0.8, 1.25) if (vary_box and t) else 1.0) * (1.0 + drift * t)
         if okind == "zero":
             lo = np.zeros(d)
         elif okind == "neg":
@@ -89,7 +93,31 @@ def make_traj(rng, d, N, frames, thorough=False, poskind=None, independent_frame
         snaps.append(SingleSnapshot(timestep=100 * t, nparticle=N, particle_type=gc.lay_out(np.ones(N, dtype=int), lay, "types"), positions=pos,
                                     boxlength=L.copy(), boxbounds=bb, realbounds=None, hmatrix=np.diag(L)))
     return Snapshots(nsnapshots=frames, snapshots=snaps), {"d": d, "N": N, "origin": okind, "frames": frames,
-                                                            "vary_box": bool(vary_box), "pos": poskind}
+                                                            "vary_box": bool(vary_box), "pos": poskind, "drift_per_frame": drift}
+
+
+def make_cavity_traj(rng, N0, frames):
+    SingleSnapshot, Snapshots = gc.records()
+    snaps = []
+    N = None
+    for t in range(frames):
+        while True:
+            f = gc.make_frac(rng, 2, N0, "hardcore")
+            L = np.array([1.0, float(rng.uniform(1.0, 1.25))]) * np.sqrt(len(f) / 0.7)
+            c = rng.uniform(0.3, 0.7, size=2)
+            dr = (f - c) * L
+            keep = np.linalg.norm(dr, axis=1) > float(rng.uniform(0.24, 0.32)) * L.min()
+            f = f[keep]
+            if N is None:
+                N = len(f)
+            if len(f) >= N:
+                f = f[:N]
+                break
+        lo = rng.uniform(-3, 3, size=2)
+        snaps.append(SingleSnapshot(timestep=100 * t, nparticle=N, particle_type=np.ones(N, dtype=int), positions=lo + f * L, boxlength=L.copy(),
+                                    boxbounds=np.column_stack([lo, lo + L]), realbounds=None, hmatrix=np.diag(L)))
+    return Snapshots(nsnapshots=frames, snapshots=snaps), {"d": 2, "N": N, "origin": "asym", "frames": frames, "vary_box": True, "pos": "hardcore+cavity",
+                                                            "drift_per_frame": 0.0}
 
 
 def _info(snaps, inf):
@@ -116,14 +144,14 @@ def _multiset_match(a, b, tol):
     return ua + a[i:], ub + b[j:]
 
 
-def analyse_frame(ctx, key, k, s, nb, wt, vol, info):
+def analyse_frame(ctx, key, k, s, nb, wt, vol, info, use_oracle=True):
     """tessellation invariants of one written frame + comparison with the independent tessellation."""
     N = len(nb)
     L = s.boxlength
     allw = np.array([w for l in wt for w in l])
     med = float(np.median(allw)) if allw.size else 1.0
     thr = SLIVER * med
-    t = rv.periodic_voronoi(s.positions - s.boxbounds[:, 0], L)
+    t = rv.periodic_voronoi(s.positions - s.boxbounds[:, 0], L) if use_oracle else {"ok": False}
     ref_pair = {}
     if t["ok"]:
         for i in range(N):
@@ -180,7 +208,8 @@ def analyse_frame(ctx, key, k, s, nb, wt, vol, info):
     ctx.close("volume_sum", vol.sum(), V, key + "/volume_sum", rtol=1e-6, atol=N * 0.5e-6, what=f"frame {k}: sum of cell volumes", data=info, n=1)
     # --- independent tessellation
     if not t["ok"]:
-        ctx.skip("oracle_neighbors", N)
+        if use_oracle:
+            ctx.skip("oracle_neighbors", N)
         return
     wmax = max(w for l in t["neighbors"] for (_j, w, _c, _r) in l)
     # conditioning: the library stores coordinates in single precision (absolute rounding ~ 4e-7 here).  A second oracle run on
@@ -255,9 +284,13 @@ def files_case(ctx, rng, wd):
     from PyMatterSim.neighbors.read_neighbors import read_neighbors
     d = int(rng.choice([2, 3]))
     N = int(rng.integers(8, 81 if d == 2 or ctx.thorough else 61))
-    frames = int(rng.choice([1, 1, 2, 3]))
+    frames = int(rng.choice([1, 1, 2, 3, 6]))
+    if frames == 6:
+        N = min(N, 30)
     snaps, inf = make_traj(rng, d, N, frames, ctx.thorough)
     N = inf["N"]
+    if inf["drift_per_frame"]:
+        ctx.count("box_drifting_slowly_between_frames")
     info = lambda: _info(snaps, inf)  # noqa: E731
     out = os.path.join(wd, str(rng.choice(["vor", "vor", "glass_T0.45", "traj.atom", "run.2.final"])))      # a prefix is a prefix, dots or not
     key = f"cal_neighbors/{d}D"
@@ -324,14 +357,76 @@ def files_case(ctx, rng, wd):
         os.remove(p)
 
 
-def vm_case(ctx, rng, wd, i):
+def files_huge_case(ctx, rng, wd):
+    """one two-dimensional configuration of more than 2^16 particles (pair keys i*N+j beyond 32 bits, more rows than any block size): every
+    clause of C20 that needs no second tessellation -- ids, coordination numbers, symmetric relation with equal weights, volume sum,
+    hand-off to the neighbour-file reader"""
+    from PyMatterSim.neighbors.freud_neighbors import cal_neighbors
+    from PyMatterSim.neighbors.read_neighbors import read_neighbors
+    SingleSnapshot, Snapshots = gc.records()
+    N = int(rng.choice([65700, 66049, 70001]))
+    L = np.array([1.0, 1.3]) * np.sqrt(N / 1.3)
+    lo = rng.uniform(-5, 5, size=2)
+    pos = lo + rng.random((N, 2)) * L
+    s = SingleSnapshot(timestep=0, nparticle=N, particle_type=np.ones(N, dtype=int), positions=pos, boxlength=L.copy(),
+                       boxbounds=np.column_stack([lo, lo + L]), realbounds=None, hmatrix=np.diag(L))
+    snaps = Snapshots(nsnapshots=1, snapshots=[s])
+    info = lambda: {"d": 2, "N": N, "boxlength": L, "origin": lo, "positions": "uniform random, omitted"}  # noqa: E731
+    out = os.path.join(wd, "huge")
+    key = "cal_neighbors/2D"
+    ok, _ = ctx.call(key + "/huge", cal_neighbors, snaps, out, data=info)
+    ctx.case("files/2D/more_than_65536_particles", pos[:100], L, N, nontrivial=True, sample={"d": 2, "N": N})
+    ctx.count("systems_over_65536_particles")
+    if not ok:
+        return
+    hn, fn_ = parse_file(out + ".neighbor.dat")
+    hw, fw = parse_file(out + ".edgelength.dat")
+    ho, rows_o = parse_overall(out + ".overall.dat")
+    good = len(fn_) == 1 and len(fw) == 1 and len(rows_o) == N and len(fn_[0]) == N and len(fw[0]) == N
+    if not ctx.check("structure", good, key + "/layout", lambda: f"rows: neighbour {len(fn_[0]) if fn_ else 0} weights {len(fw[0]) if fw else 0} overall {len(rows_o)} for N={N}", info):
+        return
+    rn, rw = fn_[0], fw[0]
+    ids_ok = ([int(t[0]) for t in rn] == list(range(1, N + 1)) and [int(t[0]) for t in rw] == list(range(1, N + 1))
+              and [int(t[0]) for t in rows_o] == list(range(1, N + 1)))
+    if not ctx.check("structure", ids_ok, key + "/ids", "rows are not ids 1..N in order in all three files", info):
+        return
+    cn_ok = all(int(a[1]) == len(a) - 2 == int(b[1]) == len(b) - 2 == int(c[1]) for a, b, c in zip(rn, rw, rows_o))
+    if not ctx.check("structure", cn_ok, key + "/cn", "coordination number differs between files or from the number of listed neighbours/weights", info):
+        return
+    nb = [[int(v) - 1 for v in t[2:]] for t in rn]
+    wt = [[float(v) for v in t[2:]] for t in rw]
+    vol = np.array([float(t[2]) for t in rows_o])
+    if not ctx.check("structure", all(0 <= j < N for l in nb for j in l), key + "/idrange", "neighbour id outside 1..N", info):
+        return
+    analyse_frame(ctx, key, 0, s, nb, wt, vol, info, use_oracle=False)
+    for path, heads, frs in ((out + ".neighbor.dat", hn, fn_), (out + ".edgelength.dat", hw, fw)):
+        maxcn = max(int(t[1]) for t in frs[0])
+        with open(path) as f:
+            ok2, got = ctx.call(key + "/read", read_neighbors, f, N, maxcn, data=info)
+            if ok2:
+                exp = expected_read(heads[0], frs[0], N, maxcn)
+                got = np.asarray(got)
+                ctx.check("reader", got.shape == exp.shape and np.array_equal(got, exp), key + "/read/huge",
+                          lambda: f"{os.path.basename(path)}: shape {got.shape}, expected {exp.shape}", info)
+    for p_ in (out + ".neighbor.dat", out + ".edgelength.dat", out + ".overall.dat"):
+        os.remove(p_)
+
+
+def vm_case(ctx, rng, wd, i, big=False):
     from PyMatterSim.neighbors.freud_neighbors import VolumeMatrix
     SingleSnapshot, Snapshots = gc.records()
     d = 2 if rng.random() < 0.6 else 3
     N = int(rng.integers(8, 15 if d == 2 else 12))
     frames = int(rng.choice([1, 2, 3, 4]))
     # hard-core positions: the finite-difference step must stay small against every pair distance
-    snaps, inf = make_traj(rng, d, N, frames, poskind="hardcore", independent_frames=True)
+    if big:
+        # far beyond the usual size and strongly inhomogeneous: a two-dimensional hard-core configuration of 130-230 particles with a
+        # circular cavity (cells at the rim of the cavity have neighbours ACROSS it, many mean spacings away)
+        d, frames = 2, 2
+        snaps, inf = make_cavity_traj(rng, int(rng.choice([150, 200, 260])), frames)
+        ctx.count("volume_matrix_of_a_large_configuration_with_a_cavity")
+    else:
+        snaps, inf = make_traj(rng, d, N, frames, poskind="hardcore", independent_frames=True)
     N = inf["N"]
     k = int(rng.integers(0, frames))
     if i % 4 == 1 and frames > 1:
@@ -501,6 +596,10 @@ def run(ctx):
     wd = fresh_dir("c20")
     if ctx.shard == 0:
         known_input_case(ctx, wd)
+    if ctx.shard == ctx.nshards - 1:
+        vm_case(ctx, ctx.rng(), wd, 2, big=True)
+    if ctx.shard == ctx.nshards - 1 or (ctx.thorough and ctx.shard % 4 == 1):
+        files_huge_case(ctx, ctx.rng(), wd)
     n = ctx.n(150, 300)
     nv = ctx.n(48, 60)
     for i in range(max(n, nv)):
